@@ -85,7 +85,7 @@ def proof_stage(res, module, theorems, tier, extra_targets=("tbmodel",)):
         return
     if re.search(r"declaration uses .sorry.", out):
         res.build_problems.append("sorry in build output of %s" % module)
-    hits = C.source_audit()
+    hits = C.source_audit([module])
     if hits:
         res.build_problems.append("forbidden constructs in Lean sources: " + "; ".join(hits[:10]))
     ax = C.axiom_audit(module, theorems)
